@@ -5,8 +5,8 @@
    Assumptions that appear as premises:  H_inj (sha1 o pickle separates fingerprints),
    store_spec (what _maybe_run_optimizer needs from the DiskDict; PROVED below for
    directory=None and for an on-disk directory with directory_split=False and =True under
-   the pickle round-trip hypothesis, for the DiskDict as it stands; for the fixed DiskDict
-   only the directory=None instance is proved, the rest is executed correspondence), NoDup of the size_dict keys (a Python dict).
+   the pickle round-trip hypothesis, both for the pre-fix DiskDict (historical) and for the
+   FIXED DiskDict that /repo contains since 40262ad), NoDup of the size_dict keys (a Python dict).
    The sub-optimizer is an arbitrary oracle `orc`; all theorems hold for every oracle. *)
 From Coq Require Import Lia Permutation ZArith List Bool.
 From Ctg Require Import Base Net DiskFS Reusable BaseFacts NetFacts FingerprintFacts DiskFSFacts ReusableFacts.
@@ -201,6 +201,66 @@ Theorem C14_fresh_process_equiv_split : forall (encode : con -> bytes) (decode :
 Proof. exact fresh_process_equiv_split. Qed.
 Print Assumptions C14_fresh_process_equiv_split.
 
+(* ---- the code that exists since 40262ad: the FIXED DiskDict, on disk, every layout ---- *)
+(* (hex_names H: digests are hexadecimal, so no entry name starts with the '.' of a temporary
+   file; finv / sinv: root exists, every top-level node is a file resp. a directory, every node
+   at an entry name is a complete entry, the memory cache agrees with the files) *)
+Theorem C14_store_spec_directory_flat_fix : forall (encode : con -> bytes) (decode : bytes -> option con) (mr : nat),
+  (forall c, decode (encode c) = Some c) ->
+  store_spec (ops_fix encode decode (S mr)) (finv encode) (flat_view decode) fkey.
+Proof. exact flat_store_spec_fix. Qed.
+Print Assumptions C14_store_spec_directory_flat_fix.
+
+Theorem C14_store_spec_directory_split_fix : forall (encode : con -> bytes) (decode : bytes -> option con) (mr : nat),
+  (forall c, decode (encode c) = Some c) ->
+  store_spec (ops_fix encode decode (S mr)) (sinv encode) (flat_view decode) skey.
+Proof. exact split_store_spec_fix. Qed.
+Print Assumptions C14_store_spec_directory_split_fix.
+
+Theorem C14_store_spec_fix_all_layouts : forall (encode : con -> bytes) (decode : bytes -> option con) (mr : nat),
+  (forall c, decode (encode c) = Some c) -> forall H : fpr -> name, hex_names H -> forall sp : bool,
+  store_spec (ops_fix encode decode (S mr)) (rinv encode sp) (flat_view decode) (rkey sp) /\
+  (forall c q, split c = sp -> rkey sp (key_of H c q)).
+Proof. exact fix_store_spec_all_layouts. Qed.
+Print Assumptions C14_store_spec_fix_all_layouts.
+
+(* the session-level consequences, instantiated: invariant kept; cache_only never searches and
+   changes nothing; 'improved' never worsens; with overwrite=False an entry never changes *)
+Theorem C14_sessions_on_the_fixed_diskdict : forall (encode : con -> bytes) (decode : bytes -> option con) (mr : nat),
+  (forall c, decode (encode c) = Some c) -> forall H : fpr -> name, hex_names H ->
+  forall (orc : nat -> net -> con) (c : cfg) (qs : list net) (d : dd con) (ns : nat),
+  rinv encode (split c) d ->
+  let ops := ops_fix encode decode (S mr) in
+  let d' := fst (snd (run_queries H ops orc c (d, ns) qs)) in
+  rinv encode (split c) d' /\
+  (cache_only c = true ->
+     snd (snd (run_queries H ops orc c (d, ns) qs)) = ns /\
+     (forall k, rkey (split c) k -> flat_view decode d' k = flat_view decode d k)) /\
+  (overwrite c = OvImproved -> forall k0 old, rkey (split c) k0 -> flat_view decode d k0 = Some old ->
+     exists new, flat_view decode d' k0 = Some new /\ (c_score new <= c_score old)%Z) /\
+  (overwrite c = OvFalse -> forall k0 cn, rkey (split c) k0 -> flat_view decode d k0 = Some cn ->
+     flat_view decode d' k0 = Some cn).
+Proof. exact fix_session_facts. Qed.
+Print Assumptions C14_sessions_on_the_fixed_diskdict.
+
+Theorem C14_fresh_process_equiv_fix : forall (encode : con -> bytes) (decode : bytes -> option con) (mr : nat),
+  (forall c, decode (encode c) = Some c) ->
+  forall (H : fpr -> name) orc c d ns q, hex_names H ->
+  (if split c then sinv encode d else finv encode d) ->
+  let ops := ops_fix encode decode (S mr) in
+  fst (maybe_run H ops orc c (fresh d, ns) q) = fst (maybe_run H ops orc c (d, ns) q) /\
+  snd (snd (maybe_run H ops orc c (fresh d, ns) q)) = snd (snd (maybe_run H ops orc c (d, ns) q)) /\
+  (forall k, (if split c then skey k else fkey k) ->
+     flat_view decode (fst (snd (maybe_run H ops orc c (fresh d, ns) q))) k =
+     flat_view decode (fst (snd (maybe_run H ops orc c (d, ns) q))) k).
+Proof. exact fresh_process_equiv_fix. Qed.
+Print Assumptions C14_fresh_process_equiv_fix.
+
+(* the invariants are not vacuous: a freshly created cache directory satisfies both *)
+Example C14_fixed_invariants_hold_initially : forall encode,
+  finv encode (mkDD [] true fs0) /\ sinv encode (mkDD [] true fs0).
+Proof. intros encode. split; [apply finv_init|apply sinv_init]. Qed.
+
 (* ---- non-vacuity: a concrete history through the concrete DiskDict model --------------- *)
 (* codec of the example: an entry is written as its path length + 1 bytes (round trip holds on
    the entries used); H maps the two fingerprints to two names *)
@@ -222,4 +282,12 @@ Example C14_example_history :
   rs = [Ok (true, ex_c1); Ok (true, ex_c2)] /\ ns = 2 /\
   fst (maybe_run ex_H ex_ops ex_orc (mkCfg false false OvFalse true) (fresh d, ns) ex_q) = Ok (false, ex_c2) /\
   hit_view ex_q' ex_c2 = Some ([[0;1;2]; [1;2]], (12%Z, (5%Z, 3%Z))).
+Proof. vm_compute. repeat split; reflexivity. Qed.
+
+Example C14_example_history_fixed_diskdict :
+  let ops := ops_fix (tab_encode ex_tab) (tab_decode ex_tab) 3 in
+  let c := mkCfg false true OvImproved false in
+  let '(rs, (d, ns)) := run_queries ex_H ops ex_orc c (mkDD [] true fs0, 0) [ex_q; ex_q'] in
+  rs = [Ok (true, ex_c1); Ok (true, ex_c2)] /\ ns = 2 /\
+  fst (maybe_run ex_H ops ex_orc (mkCfg false true OvFalse true) (fresh d, ns) ex_q) = Ok (false, ex_c2).
 Proof. vm_compute. repeat split; reflexivity. Qed.
